@@ -381,6 +381,8 @@ func (r *rewriter) callOp(call *ast.CallExpr) string {
 			return ""
 		}
 		return "sync." + recvName + "." + fn.Name()
+	case pkg == "reflect" && recvName == "" && fn.Name() == "Select":
+		return "reflect.Select"
 	case pkg == "runtime" && recvName == "" && fn.Name() == "Gosched":
 		// the body of a spin-wait: a poller, eligible again only after something changed
 		return "runtime.Gosched:blocked"
@@ -556,6 +558,64 @@ func (r *rewriter) run() {
 		}
 	}
 	astutil.Apply(r.file, r.pre, r.post)
+	r.packageLevelChannels()
+}
+
+// packageLevelChannels: a channel made by a package-level initialiser exists before any
+// bubble does; blocking on it is no durable block for synctest and the simulation could
+// never go quiet. Every package-level `var x = <expr containing make(chan ...)>` therefore
+// gets an init function that registers `x = <expr>` with simrt; the engines run the
+// registered assignments once inside their bubble before any code under test runs (no
+// bubble, no re-assignment: free-running passes keep the original value).
+func (r *rewriter) packageLevelChannels() {
+	var inits []ast.Stmt
+	for _, d := range r.file.Decls {
+		gd, ok := d.(*ast.GenDecl)
+		if !ok || gd.Tok != token.VAR {
+			continue
+		}
+		for _, sp := range gd.Specs {
+			vs, ok := sp.(*ast.ValueSpec)
+			if !ok || len(vs.Values) != len(vs.Names) {
+				continue
+			}
+			for i, v := range vs.Values {
+				if vs.Names[i].Name == "_" || !containsMakeChan(r.info, v) {
+					continue
+				}
+				site := r.site(v.Pos(), "package-level-channel")
+				inv.GoStarts = append(inv.GoStarts, site)
+				assign := &ast.AssignStmt{Lhs: []ast.Expr{ast.NewIdent(vs.Names[i].Name)}, Tok: token.ASSIGN, Rhs: []ast.Expr{v}}
+				inits = append(inits, &ast.ExprStmt{X: simrtCall("RegisterBubbleInit", strLit(site),
+					&ast.FuncLit{Type: &ast.FuncType{Params: &ast.FieldList{}}, Body: &ast.BlockStmt{List: []ast.Stmt{assign}}})})
+			}
+		}
+	}
+	if len(inits) == 0 {
+		return
+	}
+	r.file.Decls = append(r.file.Decls, &ast.FuncDecl{Name: ast.NewIdent("init"), Type: &ast.FuncType{Params: &ast.FieldList{}}, Body: &ast.BlockStmt{List: inits}})
+	r.changed = true
+}
+
+func containsMakeChan(info *types.Info, e ast.Expr) bool {
+	found := false
+	ast.Inspect(e, func(n ast.Node) bool {
+		if _, ok := n.(*ast.FuncLit); ok {
+			return false
+		}
+		if call, ok := n.(*ast.CallExpr); ok {
+			if id, ok := ast.Unparen(call.Fun).(*ast.Ident); ok && id.Name == "make" && len(call.Args) > 0 {
+				if t := info.TypeOf(call.Args[0]); t != nil {
+					if _, ok := t.Underlying().(*types.Chan); ok {
+						found = true
+					}
+				}
+			}
+		}
+		return !found
+	})
+	return found
 }
 
 func (r *rewriter) pre(c *astutil.Cursor) bool {
@@ -761,6 +821,12 @@ func (r *rewriter) rewriteCall(c *astutil.Cursor, call *ast.CallExpr) {
 		r.changed = true
 	case pkg == "maps" && (fn.Name() == "Keys" || fn.Name() == "Values" || fn.Name() == "All"):
 		inv.Uncontrolled = append(inv.Uncontrolled, r.site(call.Pos(), "std-maps."+fn.Name()))
+	case pkg == "reflect" && fn.Name() == "Select" && recvNamed(fn) == "":
+		site := r.site(call.Pos(), "reflect.Select")
+		inv.YieldSites = append(inv.YieldSites, site)
+		call.Fun = &ast.SelectorExpr{X: ast.NewIdent("simrt"), Sel: ast.NewIdent("ReflectSelect")}
+		call.Args = append([]ast.Expr{strLit(site)}, call.Args...)
+		r.changed = true
 	case pkg == "math/rand" || pkg == "math/rand/v2" || pkg == "crypto/rand":
 		inv.Uncontrolled = append(inv.Uncontrolled, r.site(call.Pos(), pkg+"."+fn.Name()))
 	case pkg == "time" && (fn.Name() == "Now" || fn.Name() == "Since"):
